@@ -12,7 +12,9 @@ from .. import hier
 TECHNIQUE = 'Coq/mathcomp proof that adjoint smoother pairs give a symmetric V/W operator + proof and exhaustive correspondence of the flag derivation'
 LEVEL_TEXT = ('Kernel-checked theorems (Props/C05.v): for hierarchies of any depth with symmetric level matrices, R = P^T, '
               'a symmetric coarse solve and adjoint smoother pairs, the textbook V- and W-cycle operator is a symmetric '
-              'matrix, it is the operator of the C03 cycle function, hence <Mu,v> = <u,Mv>; and the three list-length '
+              'matrix, it is the operator of the C03 cycle function, hence <Mu,v> = <u,Mv>; if moreover the cycle strictly '
+              'contracts the energy norm of every nonzero error (A symmetric positive semidefinite and invertible) that matrix is positive '
+              'definite; and the three list-length '
               'branches of change_smoothers compute exactly the conjunction over all smoothing levels of the pairwise '
               'test on the smoothers actually installed.  The flag model (fed the SYMMETRIC/KRYLOV method lists read '
               'from the working-tree source) must agree with ml.symmetric_smoothing on an enumeration of all method '
@@ -22,7 +24,8 @@ LEVEL_TEXT = ('Kernel-checked theorems (Props/C05.v): for hierarchies of any dep
 LEVEL_NOTE = ('Soundness of the pairwise test itself (flag true => adjoint pair) is not a theorem: it is decided per '
               'configuration class by the dense oracle; on the unchanged tree it FAILS for the classes listed as known '
               'findings (kwargs other than sweep differ; jacobi_ne; gauss_seidel_ne/_nr) -- the library\'s own test-suite '
-              'expects those flags, so they are recorded, not repaired.  Positive definiteness: oracle only.')
+              'expects those flags, so they are recorded, not repaired.  Positive definiteness is proved from strict energy contraction; '
+              'strictness itself (C02 proves non-expansion) is measured by the oracle on built hierarchies.')
 RULE = ('all ordered pairs of the 21 registered smoothers + None x iterations {1,2}^2 (random sweeps), all 9 sweep pairs '
         'for equal names, cf/fc pairs with f/c iteration counts, per-level lists of length 1-3 on 3-4 level hierarchies: '
         'flag model == ml.symmetric_smoothing; every distinct flag-true (method pair, sweep pair, kwargs-equal?) class: '
@@ -30,7 +33,7 @@ RULE = ('all ordered pairs of the 21 registered smoothers + None x iterations {1
         'Non-trivial: a configuration with two smoothing levels or more; distinct = distinct configuration.')
 TRUSTED = ['ast extraction of SYMMETRIC_RELAXATION / KRYLOV_RELAXATION / _setup_call keys from pyamg/relaxation/smoothing.py']
 PARTIAL = ['flag soundness (flag true => adjoint smoother pair) is decided by the oracle per class, not proved',
-           'complex Hermitian case and positive definiteness: oracle only']
+           'complex Hermitian case: oracle only', 'strict energy contraction (hypothesis of the positive-definiteness theorem): measured by the oracle']
 REFUTED = ['flag soundness fails on the unchanged tree for: differing kwargs, jacobi_ne, gauss_seidel_ne, gauss_seidel_nr (F4)']
 HEADER = ('From Coq Require Import ZArith List Bool.\nImport ListNotations.\n'
           'Require Import PV.Base.Ops PV.Model.SmoothFlag PV.Model.SmoothFlagRun.\nOpen Scope Z_scope.\n')
@@ -273,6 +276,17 @@ def oracle(ctx, classes):
                                      dict(case, cycle=cyc))
                         else:
                             ev = np.linalg.eigvalsh((M + M.conj().T) / 2)
+                            # hypothesis of C05_preconditioner_positive_definite: the error propagation I - M A is a
+                            # strict contraction in the energy norm (then the theorem gives M > 0)
+                            Ad = ml.levels[0].A.toarray()
+                            wA, VA = np.linalg.eigh(Ad)
+                            if wA.min() > 0:
+                                Ah = (VA * np.sqrt(wA)) @ VA.conj().T
+                                Aih = (VA / np.sqrt(wA)) @ VA.conj().T
+                                nE = np.linalg.norm(Ah @ (np.eye(Ad.shape[0]) - M @ Ad) @ Aih, 2)
+                                ctx.count('oracle:strict-energy-contraction' if nE < 1 - 1e-12 else 'oracle:no-strict-contraction')
+                                if nE < 1 - 1e-9 and ev.min() <= 0:
+                                    ctx.fail('contraction-but-not-positive-definite/' + str(meth), '|E|_A = %.6g, min eig %.3g' % (nE, ev.min()), dict(case, cycle=cyc))
                             if ev.min() <= 1e-12 * abs(ev).max():
                                 ctx.fail('flag-true-not-positive-definite/' + str(meth), 'min eigenvalue %.3g' % ev.min(), dict(case, cycle=cyc))
             except Exception as e:   # noqa
